@@ -30,10 +30,10 @@ def save_meta(d, m):
     json.dump(m, open(os.path.join(d, "meta.json"), "w"), indent=1)
 
 
-def do_import(pid):
+def do_import(pid, round2=False):
     src = "/tmp/mut-%s-out" % pid
     variants = "AB"
-    if not os.path.isdir(src) or not any(os.path.exists(os.path.join(src, v + ".diff")) for v in "AB"):
+    if round2:
         src = "/tmp/mut2-%s-out" % pid      # second round: variants C and D
         variants = "CD"
     for v in variants:
@@ -139,6 +139,8 @@ if __name__ == "__main__":
     for a in sys.argv[2:]:
         if cmd == "import":
             do_import(a)
+        elif cmd == "import2":
+            do_import(a, round2=True)
         elif cmd == "confirm":
             do_confirm(a)
         elif cmd == "detect":
